@@ -33,13 +33,13 @@ MANIFEST = dict(
          "the data range, NaN in any input gives NaN); the curve is constant (quantile) / affine (expectile, Huber) between "
          "kinks for single cases and sums over any number of cases; the model of murphy_thetas returns exactly the sorted kink "
          "set (forecast values of every source, left-limit points, obs, obs +- a) so the values at the thetas determine the "
-         "curve; the integral over theta (step integral, and midpoint rule on any kink-complete grid) is the pinball / half "
-         "asymmetric squared / Huber loss.",
+         "curve; the mean over cases (skipna) is the mean elementary score over the cases with forecast and observation present; "
+         "the integral over theta (step integral, and midpoint rule on any kink-complete grid, in particular on the thetas "
+         "returned by murphy_thetas) is the pinball / half asymmetric squared / Huber loss.",
     note="Trusted: Lean kernel; py2lean translator; SV.Fl (IEEE minus rounding/overflow/signed zero); hand model of "
          "broadcast_and_match_nan, mean(skipna), np.unique/concatenate and the functional dispatch (tied by differential "
          "correspondence only); step / midpoint-rule calculus as the meaning of the integral (no Mathlib measure-theory bridge). "
-         "Not proved in Lean: the mean over cases with NaN removal equals the mean of the elementary scores over valid cases "
-         "(compared per run by the harness against the exact Spec). Not generated: infinite forecasts (fcst*0.0 is NaN: the "
+         "Not proved in Lean: Taggart's closed form taggartH = elemH. Not generated: infinite forecasts (fcst*0.0 is NaN: the "
          "quantile/Huber score of an infinite forecast is 0, notes/C11.md N1) and forecast sources of different shapes in "
          "murphy_thetas (huber/expectile raise, N2); different coordinate label sets on fcst and obs.",
     technique="Lean 4 theorems over translator-regenerated kernels + hand model of the frame; differential correspondence; "
